@@ -74,6 +74,9 @@ def mutate(rng, prob, kw, d):
         # several points per restart: the cap restarts.max_npt must hold whatever the increment
         up["restarts.increase_npt_amt"] = int(rng.integers(2, 4))
         up["restarts.max_npt"] = int(kw.get("npt", prob["n"] + 1)) + int(rng.integers(1, 4))
+    if d.get("growing") and rng.random() < 0.5:
+        # batches of new directions that do not divide the number of missing points: the last batch meets a full set
+        up["growing.num_new_dirns_each_iter"] = int(rng.integers(2, 4))
     if d.get("growing") and rng.random() < 0.3:
         up["growing.reset_delta"] = True
         if rng.random() < 0.5:
